@@ -15,6 +15,12 @@ from ..hirq import walk, kind, callee, where, PathEnum, exits, peel
 
 LEVEL = "other"
 
+# "leaves ... the stack exactly as it was" rests on Stack::snapshot / restore / clear_snapshot implementing the
+# copy-on-snapshot model (stack.rs is an anchor of C03): the structural clauses of C11 are re-run here.
+DEPENDS = [
+    ("C11", {"why": "restoring the stack after a failed sequence / any look-ahead is Stack::restore and clear_snapshot"}),
+]
+
 PS = "pest::parser_state::ParserState"
 STACK = "pest::stack::Stack"
 POSITION = "pest::position::Position"
